@@ -288,9 +288,10 @@ def rollout(tier: str, prop: str) -> list[dict]:
         return classic[:4] + mj_quick[:1] if tier == "quick" else classic + mj_quick + mj_rest[:3]
     if prop == "C01":
         return classic[:5] + mj_quick[:1] if tier == "quick" else classic + mj_quick + mj_rest
+    # slowest compiles first (G1 ~2 min, MuJoCo 30-60 s) so that they overlap with everything else
     if tier == "quick":
-        return classic + mj_quick
-    return classic + mj_quick + mj_rest + g1
+        return g1 + mj_rest + mj_quick + classic
+    return g1 + mj_rest + mj_quick + classic
 
 
 def g1(tier: str, prop: str) -> list[dict]:
